@@ -137,10 +137,15 @@ func (l *lexer) nextToken(r rune, text string) (tok Token, _ bool) {
 
 func scanSpace(s *scanner.Scanner) {
 	for {
-		if ch := s.Peek(); !unicode.IsSpace(ch) {
+		switch ch := s.Peek(); {
+		case ch == '#':
+			// Comment is not significant too.
+			lexerql.ScanComment(s)
+		case unicode.IsSpace(ch):
+			s.Next()
+		default:
 			return
 		}
-		s.Next()
 	}
 }
 
